@@ -16,6 +16,9 @@ def add_jobs(run, tier):
         ml = 2 if tier == 'quick' else 3
         jobs.append(dict(path=H, fname='_c20_list', params={'n': n, 'kind': kind, 'maxlen': ml}, timeout=200 if ml == 2 else 1200, self_reach=True, label=f'{kind}: index list/array',
                          bounds=dict(b, entries=f'0..{ml} entries in [-{n + 2}, {n + 2}]', forms='list, tuple, intp array, int8 array')))
+        if ml == 2:
+            jobs.append(dict(path=H, fname='_c20_list3', params={'n': n, 'kind': kind}, timeout=300, self_reach=True, label=f'{kind}: three valid indices',
+                             bounds=dict(b, entries=f'every sequence of 3 indices in [-{n}, {n - 1}]', forms='list, intp array')))
         jobs.append(dict(path=H, fname='_c20_mask', params={'n': n, 'kind': kind}, timeout=200, self_reach=True, label=f'{kind}: boolean mask',
                          bounds=dict(b, mask=f'every mask of length 0..{n + 1} (wrong lengths must raise), list and array')))
     if tier == 'quick':
